@@ -179,6 +179,59 @@ def main(run):
             kernel.release()
             if len(run.coverage["samples"]) < 5:
                 run.sample(dict(model=name, dispersed=disperse, modes=len(modes), q_range=[float(q[0]), float(q[-1])], pars={k: v for k, v in list(dpars.items())[:6]}))
+    # ---- the tuple does not depend on build-time switches of the environment: a fresh process with SAS_OPENMP set and an
+    # empty library cache (so that the models are compiled there) reports the same <F>, <F^2>, R_eff, volumes and I(q)
+    import json as _json, os as _os, subprocess as _sp, tempfile as _tf
+    envw = r"""
+import json, sys
+import numpy as np
+from sasmodels.core import load_model
+from sasmodels.direct_model import call_kernel, call_Fq
+q = np.logspace(-4, -0.3, 1500)
+out = {}
+for name, pars in json.loads(sys.argv[1]):
+    m = load_model(name, dtype="double", platform="dll")
+    k = m.make_kernel([q])
+    rows = []
+    for rep in range(4):
+        F1, F2, reff, shell, ratio = call_Fq(k, dict(pars, radius_effective_mode=1), cutoff=0.0)
+        iq = call_kernel(k, dict(pars, scale=1.3, background=0.01), cutoff=0.0)
+        rows.append([np.asarray(F1).tolist(), np.asarray(F2).tolist(), float(reff), float(shell), float(ratio), np.asarray(iq).tolist()])
+    out[name] = rows
+    k.release()
+print(json.dumps(out))
+"""
+    jobs = [("sphere", dict(radius=150.0, radius_pd=0.15, radius_pd_n=12)), ("cylinder", dict(radius=40.0, length=600.0))]
+    tmpd = _tf.mkdtemp(prefix="c14env_", dir=run.scratch.sub("envdll"))
+    results = {}
+    for label, extra in (("plain", {}), ("SAS_OPENMP", {"SAS_OPENMP": "1", "OMP_NUM_THREADS": "8"})):
+        env = dict(_os.environ); env.pop("SAS_OPENMP", None)
+        env.update(PYTHONPATH=common.REPO, SAS_DLL_PATH=_os.path.join(tmpd, label), SAS_OPENCL="none", PYTHONHASHSEED="0")
+        env.update(extra)
+        _os.makedirs(env["SAS_DLL_PATH"], exist_ok=True)
+        pr = _sp.run([common.PY, "-c", envw, _json.dumps(jobs)], env=env, capture_output=True, text=True, timeout=600)
+        evals += 1
+        if pr.returncode != 0:
+            run.add(Finding("C14:environment:error", "evaluating in a fresh process with %s raised: %s" % (label, pr.stderr[-400:]), dict(environment=extra)))
+            results = None
+            break
+        results[label] = _json.loads(pr.stdout.strip().splitlines()[-1])
+    stats["environment_builds"] = 2 if results else 0
+    if results:
+        for name, _ in jobs:
+            ref = results["plain"][name][0]
+            for label in ("plain", "SAS_OPENMP"):
+                for rep, row in enumerate(results[label][name]):
+                    worst = max(float(np.max(np.abs(np.asarray(a_, "d") - np.asarray(b_, "d")) / (np.abs(np.asarray(b_, "d")) + 1e-300))) for a_, b_ in zip(row, ref))
+                    if worst > 1e-12:
+                        run.add(Finding("C14:environment:%s" % name, "%s compiled and evaluated in a process with %s in the environment (evaluation %d): <F>, <F^2>, R_eff, volumes or I(q) differ from the plain build by up to %.3g (relative)" % (
+                            name, label, rep, worst), dict(model=name, environment=label, pars=dict(jobs)[name])))
+                        break
+                else:
+                    continue
+                break
+            else:
+                distinct.add(("environment", name))
     run.coverage.update(evaluations=evals, distinct_nontrivial=len(distinct), traces_validated_against_impl=0, input_distribution=stats)
     run.assumptions += ["the theorem needs F(x)^2 <= F^2(x) at every mesh point (an orientation average inside each model's C code): measured, not proved",
                         "equality as q -> 0, equality for spherically symmetric shapes, the volume-sphere identity and positivity per mode are measured on the implementation",
